@@ -141,3 +141,10 @@
                (seq.unit (hostPortOf (seq.nth ips (- (seq.len ips) 1)) port)))))
 ;@ghost rrAdds (Seq String)
 ;@ghost rrRemoves (Seq String)
+
+;@chunk glob globRe routeMatch
+; regular expression text generated for a static-route pattern: '.' escaped first, then '*' -> '.*', anchored
+(define-fun globRe ((s String)) String
+  (str.++ "^" (str.replace_all (str.replace_all s "." "\u{5c}.") "*" ".*") "$"))
+(define-fun routeMatch ((pat String) (dest String)) Bool
+  (and (reValid (globRe pat)) (reMatch (globRe pat) dest)))
